@@ -74,7 +74,9 @@ var menu = []answer{
 	{name: "429ra2", status: 429, ra: "2", body: "text"},
 	{name: "503", status: 503, body: "text"},
 	{name: "503ra5", status: 503, ra: "5", body: "text"},
-	{name: "503ra0", status: 503, ra: "0", body: "text"}, // a server-directed delay of nothing: still no licence to wait longer later
+	{name: "503ra0", status: 503, ra: "0", body: "text"},
+	{name: "503ra010", status: 503, ra: "010", body: "text"}, // delay-seconds is 1*DIGIT: leading zeros are decimal (10 s, not octal 8)
+	{name: "429ra08", status: 429, ra: "08", body: "text"},   // 8 s, not an unparsable header // a server-directed delay of nothing: still no licence to wait longer later
 	{name: "429ra300", status: 429, ra: "300", body: "text"}, // more than the 128 s cap: must not stick to later answers
 	{name: "503date+3", status: 503, ra: "date+3", body: "text"},
 	{name: "503date-10", status: 503, ra: "date-10", body: "text"},
@@ -181,6 +183,12 @@ func (g *gatedRT) RoundTrip(req *http.Request) (*http.Response, error) {
 		ev.askAt = gate.Now() + 2*time.Second
 	case "0":
 		h.Set("Retry-After", "0")
+	case "010":
+		h.Set("Retry-After", "010")
+		ev.askAt = gate.Now() + 10*time.Second
+	case "08":
+		h.Set("Retry-After", "08")
+		ev.askAt = gate.Now() + 8*time.Second
 	case "5":
 		h.Set("Retry-After", "5")
 		ev.askAt = gate.Now() + 5*time.Second
@@ -669,7 +677,7 @@ func TestCheck(t *testing.T) {
 		scenario{Name: "3 callers sharing a LogClient, prompt server, network keeps failing", API: "logclient", Callers: 3, Ctx: []string{"none", "none", "none"}, MaxBad: kb - 2, Bound: bb - 1, Default: "neterr", Prompt: true, Seed: 3},
 		scenario{Name: "1 caller, json, server keeps answering 503 with Retry-After: 0", API: "json", Callers: 1, Ctx: []string{"cancel"}, MaxBad: kb, Bound: bb, Default: "503ra0"},
 		scenario{Name: "3 callers sharing a client, server keeps answering 429", API: "json", Callers: 3, Ctx: []string{"none", "none", "none"}, MaxBad: kb - 2, Bound: bb - 1, Default: "429"})
-	r.Rule("for each scenario, every choice vector of total deviation cost <= bound (a deviation = answering a pending request other than the canonically first, any answer other than a parsable 200 out of a 20-answer menu, a slow server, a cancellation at one of 4 instants); executions run to completion under virtual time. distinct_nontrivial = distinct observed outcomes (per-caller answer sequence and result)")
+	r.Rule("for each scenario, every choice vector of total deviation cost <= bound (a deviation = answering a pending request other than the canonically first, any answer other than a parsable 200 out of a 22-answer menu, a slow server, a cancellation at one of 4 instants); executions run to completion under virtual time. distinct_nontrivial = distinct observed outcomes (per-caller answer sequence and result)")
 	r.Assume("client jitter (math/rand, 0..249 ms) is not owned: oracles use only the bounds the property states; requests arriving within 300 ms of each other are presented together",
 		"interleavings are explored at the granularity of HTTP round trips; lock-level interleavings inside the shared backoff are covered by the free-running race pass")
 	var summary []map[string]any
